@@ -116,9 +116,12 @@ func Check_Modes() {
 
 	// strict
 	cpS := newCP(collector.DecodingModeStrict)
-	if sx.Choose("olderTemplate", 2) == 1 {
-		// an older, valid template for the same id must not survive the rejected one
-		_, errO := cpS.VerifDecodePacket(templatePkt([]pos{{known: true, kind: common.KU8}}), "1.2.3.4:5")
+	older := sx.Choose("olderTemplate", 2) == 1
+	olderTpl := templatePkt([]pos{{known: true, kind: common.KU8}})
+	if older {
+		// an older, valid (known-only) template for the same id must not survive the
+		// rejected one, nor influence how its replacement is handled in keep / drop mode
+		_, errO := cpS.VerifDecodePacket(olderTpl, "1.2.3.4:5")
 		sx.Assert(errO == nil, "older-template")
 		sx.Reach("older-template")
 	}
@@ -135,6 +138,10 @@ func Check_Modes() {
 
 	// keep
 	cpK := newCP(collector.DecodingModeLenientKeepUnknown)
+	if older {
+		_, errO := cpK.VerifDecodePacket(olderTpl, "1.2.3.4:5")
+		sx.Assert(errO == nil, "older-template-keep")
+	}
 	mT, errT := cpK.VerifDecodePacket(tpl, "1.2.3.4:5")
 	sx.Assert(errT == nil, "keep-rejects-template")
 	tel := mT.GetSet().GetRecords()[0].GetOrderedElementList()
@@ -161,6 +168,10 @@ func Check_Modes() {
 
 	// drop
 	cpD := newCP(collector.DecodingModeLenientDropUnknown)
+	if older {
+		_, errO := cpD.VerifDecodePacket(olderTpl, "1.2.3.4:5")
+		sx.Assert(errO == nil, "older-template-drop")
+	}
 	_, errT = cpD.VerifDecodePacket(tpl, "1.2.3.4:5")
 	sx.Assert(errT == nil, "drop-rejects-template")
 	mD, errD = cpD.VerifDecodePacket(data, "1.2.3.4:5")
@@ -217,6 +228,55 @@ func Check_Modes() {
 	}
 }
 
+// Check_KeepOverTCP: keep mode through the real TCP connection handler: two
+// data messages with unknown fields on one connection; after both were
+// delivered the first message still holds exactly the bytes it was sent with.
+func Check_KeepOverTCP() {
+	mode := []collector.DecodingMode{collector.DecodingModeLenientKeepUnknown, collector.DecodingModeLenientDropUnknown}[sx.Choose("mode", 2)]
+	ps := []pos{{known: true, kind: common.KU16}, {u: unknownPool[sx.Choose("unknownID", len(unknownPool))], length: []uint16{4, 65535}[sx.Choose("unknownLen", 2)]}}
+	mk := func(tag string) []val {
+		v := common.Draw(common.KU16, tag, 0)
+		raw := sx.Bytes(tag+"-unknown", 4)
+		enc := raw
+		if ps[1].length == 65535 {
+			enc = ref.Var(nil, raw)
+		}
+		return []val{{v: v, enc: v.Enc}, {raw: raw, enc: enc}}
+	}
+	r1, r2 := mk("first"), mk("second")
+	frame := func(b []byte) []byte {
+		b[2], b[3] = byte(len(b)>>8), byte(len(b))
+		return b
+	}
+	stream := frame(templatePkt(ps))
+	stream = append(stream, frame(dataPkt([][]val{r1}, nil))...)
+	stream = append(stream, frame(dataPkt([][]val{r2}, nil))...)
+	cp, err := collector.VerifNewCollectingProcess(collector.CollectorInput{Protocol: "tcp", Address: "x", DecodingMode: mode}, nil, 8)
+	sx.Assert(err == nil, "init")
+	cp.VerifHandleTCPClient(&common.FakeConn{ReadData: stream})
+	var msgs []*entities.Message
+	for len(msgs) < 3 {
+		select {
+		case m := <-cp.GetMsgChan():
+			msgs = append(msgs, m)
+		default:
+			sx.Assert(false, "three-messages-delivered")
+		}
+	}
+	for i, r := range [][]val{r1, r2} {
+		el := msgs[1+i].GetSet().GetRecords()[0].GetOrderedElementList()
+		sx.Assert(common.Same(r[0].v, el[0]), "known-value")
+		if mode == collector.DecodingModeLenientKeepUnknown {
+			sx.Assert(len(el) == 2, "keep-field-count")
+			sx.Assert(sx.EqBytes(el[1].GetOctetArrayValue(), r[1].raw), "keep-unknown-bytes-changed-after-delivery")
+		} else {
+			sx.Assert(len(el) == 1, "drop-field-count")
+		}
+	}
+	sx.Reach("tcp-checked")
+}
+
 var Table = map[string]runner.Entry{
-	"Check_Modes": {Setup: Setup, Fn: Check_Modes},
+	"Check_KeepOverTCP": {Setup: Setup, Fn: Check_KeepOverTCP},
+	"Check_Modes":       {Setup: Setup, Fn: Check_Modes},
 }
